@@ -188,4 +188,27 @@ def lat_many_keys(rng):
     return 'lat_many_keys', prog, ['src', 'src2'], inputs
 
 
-ALL = [tc, sp_count, funnel_rel, funnel_lat, neg_agg_chain, lat_contention, noindex_cycle, lat_many_keys]
+def set_reach(rng):
+    """for every node the set of start nodes that reach it (a Set lattice propagated along the edges): rows are improved in
+    place many times inside the recursive stratum, by sets that are supersets / subsets / incomparable, in an order that
+    depends on the order of the rules and of the input tuples"""
+    rules = [Rule([Head('srcs', [V('n'), SetSingle(V('n'))])], [Clause('start', [AVar('n')])]),
+             Rule([Head('srcs', [V('m'), V('s')])], [Clause('srcs', [AVar('n'), AVar('s')]), Clause('edge', [AVar('n'), AVar('m')])]),
+             Rule([Head('srcs', [V('m'), V('s')])], [Clause('back', [AVar('m'), AVar('n')]), Clause('srcs', [AVar('n'), AVar('s')])]),
+             Rule([Head('tot', [V('s')])], [Clause('srcs', [AWild(), AVar('s')])])]
+    for c in range(3):
+        rules.append(Rule([Head('has', [V('n'), K(c)])], [Clause('srcs', [AVar('n'), AVar('s')], [If(SetContains(V('s'), c))])]))
+    prog = Program([Rel('start', [T.I32]), Rel('edge', [T.I32, T.I32]), Rel('back', [T.I32, T.I32]), Rel('srcs', [T.I32, T.SET_U8], is_lat=True),
+                    Rel('tot', [T.SET_U8], is_lat=True), Rel('has', [T.I32, T.I32])], rules)
+
+    def inputs(rng):
+        n = rng.choice([4, 6, 9, 14])
+        e = _graph(rng, n, rng.randrange(n - 1, 2 * n + 1))
+        rows = [('edge', t) if rng.random() < 0.7 else ('back', (t[1], t[0])) for t in e]
+        rows += [('start', (x,)) for x in rng.sample(range(n), rng.randrange(1, min(n, 5)))]
+        rng.shuffle(rows)
+        return rows
+    return 'set_reach', prog, ['start', 'edge', 'back'], inputs
+
+
+ALL = [tc, sp_count, funnel_rel, funnel_lat, neg_agg_chain, lat_contention, noindex_cycle, lat_many_keys, set_reach]
